@@ -119,11 +119,23 @@ def ocean_floor(
     depth_dimensions = utils.dimensions_from_coords(dataset, depth_coordinates)
     non_spatial_dimensions = utils.dimensions_from_coords(dataset, non_spatial_variables)
 
+    # The bounds of the depth coordinates describe the depth axis itself.
+    # They are not data to reduce and are removed along with the depth dimension.
+    depth_bounds_names = {
+        utils.name_to_data_array(dataset, coordinate).attrs.get('bounds')
+        for coordinate in depth_coordinates
+    }
+
     for depth_dimension in sorted(depth_dimensions, key=hash):
         dimension_sets: dict[frozenset[Hashable], list[Hashable]] = defaultdict(list)
-        for name, variable in dataset.data_vars.items():
+        # Coordinates can have a depth dimension and spatial dimensions too,
+        # a cell thickness for example. These are reduced like data variables.
+        for name, variable in dataset.variables.items():
             if depth_dimension not in variable.dims:
-                continue  # Skip data variables without this depth dimension
+                continue  # Skip variables without this depth dimension
+
+            if name in depth_bounds_names:
+                continue  # Skip the bounds of the depth coordinates
 
             spatial_dimensions = frozenset(variable.dims).difference(
                 {depth_dimension}, non_spatial_dimensions)
@@ -141,7 +153,7 @@ def ocean_floor(
             # and then use that to mask out each data variable in turn.
 
             # Get an example data array and drop all the non-spatial dimensions.
-            data_array = dataset.data_vars[variable_names[0]].isel(
+            data_array = dataset[variable_names[0]].isel(
                 {name: 0 for name in non_spatial_dimensions},
                 drop=True, missing_dims='ignore')
             # Then find the ocean floor indexes.
@@ -154,9 +166,14 @@ def ocean_floor(
             # Drop any coordinates for this depth variable.
             # For some reason .isel() call will play havok with them,
             # so best to drop them beforehand.
+            # Coordinates along this depth dimension on other spatial dimensions
+            # are reduced with the variables on those dimensions, not with these.
             dataset_subset = dataset_subset.drop_vars([
                 name for name, coordinate in dataset_subset.coords.items()
-                if coordinate.dims == (depth_dimension,)
+                if depth_dimension in coordinate.dims and name not in variable_names
+            ] + [
+                name for name in depth_bounds_names
+                if name in dataset_subset.variables
             ])
 
             # Find the ocean floor using the ocean_floor_indexes
